@@ -467,8 +467,13 @@ class PropertyRun:
         if res is None:
             # no result file: the worker died (signal) or was killed after a stall
             rc = p.returncode
-            died = status == 'stalled' or (rc is not None and rc < 0)
-            in_repo = '/tangermeme/' in stack or 'tangermeme' in stack
+            # the drivers are plain Python over torch / numpy: a fatal signal raised inside the process (SIGSEGV,
+            # SIGABRT from a corrupted heap, SIGFPE, SIGBUS, SIGILL) or a call that never returns comes from the
+            # natively compiled code under test (numba kernels).  A kill from outside (SIGKILL, SIGTERM: e.g.
+            # the OOM killer) is a checker error, not a verdict.
+            fatal = rc is not None and rc < 0 and -rc in (signal.SIGSEGV, signal.SIGABRT, signal.SIGFPE, signal.SIGBUS, signal.SIGILL)
+            died = status == 'stalled' or fatal
+            in_repo = True
             what = ('bounded driver %s: a call into the code under test %s (last heartbeat after %s evaluations, sections %s)'
                     % (modname, 'did not return within %d s' % stall if status == 'stalled' else 'killed the interpreter (signal %s)' % (-rc if rc else '?'),
                        (progress or {}).get('evaluations'), (progress or {}).get('sections')))
